@@ -80,6 +80,24 @@ static Case cases[] = {
              return printf("expected F1 90 80 80, got %u units starting %02X\n", s->Length(), (unsigned char)s->First()[0]), 1;
          return 0;
      }},
+    // ---- C18 grouping
+    {"groupby_key_position", [] {
+         Value<char> v = JSON::Parse("[{\"y\":1,\"m\":2},{\"m\":5,\"y\":1},{\"z\":0,\"y\":2,\"m\":9}]");
+         Value<char> g;
+         if (!v.GroupBy(g, "y")) return printf("GroupBy failed\n"), 1;
+         String<char> t = g.Stringify();
+         const char *want = "{\"1\":[{\"m\":2},{\"m\":5}],\"2\":[{\"z\":0,\"m\":9}]}";
+         return strcmp(t.First(), want) == 0 ? 0 : (printf("got %s\nwant %s\n", t.First(), want), 1);
+     }},
+    {"groupby_removed_member", [] {
+         Value<char> v = JSON::Parse("[{\"y\":1,\"m\":2},{\"z\":0,\"y\":1,\"m\":9}]");
+         v[1].Remove("z");
+         Value<char> g;
+         if (!v.GroupBy(g, "y")) return printf("GroupBy failed on an object with a removed member\n"), 1;
+         String<char> t = g.Stringify();
+         const char *want = "{\"1\":[{\"m\":2},{\"m\":9}]}";
+         return strcmp(t.First(), want) == 0 ? 0 : (printf("got %s\nwant %s\n", t.First(), want), 1);
+     }},
     // ---- C15 order
     {"string_prefix_order", [] {
          String<char> a{"a"}, b{"ab"};
